@@ -98,11 +98,30 @@ func checkWriters(c WCase) (WOutcome, error) {
 				files = files[:op.File+1]
 			}
 			mem := &migrate.MemDir{}
+			how := "into an empty directory"
+			switch op.Off % 3 {
+			case 1: // the target already holds a (hashed) file
+				how = "into a directory that holds another file"
+				if err := mem.WriteFile("0_pre.sql", []byte("select 0;\n")); err != nil {
+					return out, fmt.Errorf("harness: %v", err)
+				}
+				if sum, err := mem.Checksum(); err != nil {
+					return out, fmt.Errorf("harness: %v", err)
+				} else if err := migrate.WriteSumFile(mem, sum); err != nil {
+					return out, fmt.Errorf("harness: %v", err)
+				}
+			case 2: // the files are handed over in another order than the directory lists them
+				how = "handed over in reverse order"
+				for i, j := 0, len(files)-1; i < j; i, j = i+1, j-1 {
+					files[i], files[j] = files[j], files[i]
+				}
+			}
+			out.Classes = append(out.Classes, "writer/copyfiles/"+strings.ReplaceAll(how, " ", "-"))
 			if err := mem.CopyFiles(files); err != nil {
 				return out, fmt.Errorf("step %d CopyFiles: %v", step, err)
 			}
 			if err := migrate.Validate(mem); err != nil {
-				return out, fmt.Errorf("step %d: MemDir after CopyFiles(%d files) does not validate: %v", step, len(files), err)
+				return out, fmt.Errorf("step %d: MemDir after CopyFiles(%d files, %s) does not validate: %v", step, len(files), how, err)
 			}
 		case "new":
 			r := sb.Run("migrate", "new", op.Name, "--dir", "file://m")
